@@ -29,3 +29,39 @@ Theorem C12_recreate :
     snd (ensure_consumer cf v d c) <> None.
 Proof. exact c12_recreate. Qed.
 Print Assumptions C12_recreate.
+
+(* ------------------------------------------------------------------------------------------------------------------
+   Under interleaving (Proofs/C12a.v, over Model/ConcAll.v: every request kind as a thread, one step per top-level transaction,
+   any number of threads, any schedule). *)
+From PV Require Import Model.ConcAll Proofs.C10c Proofs.C06a Proofs.C12a.
+From PV Require Proofs.C08c.
+
+(* at every point of every schedule that starts in a state with the C12 invariant: a consumer record without allocations is owed
+   by a thread that is not finished - a request that created the record in its own transaction and has neither given it
+   allocations nor cleaned it up yet, a request with the record on its clean-up list, or DELETE /allocations between its two
+   writer transactions (a_owes).  This is the recorded residue: it is a state DURING a schedule, visible to other requests. *)
+Theorem C12_stray_is_owed : forall cf reqs s d c,
+  ConsIff d -> Forall (fun r => req_wf r = true) reqs ->
+  stray (snd (a_exec cf reqs s d)) c ->
+  exists j t, nth_error (fst (a_exec cf reqs s d)) j = Some t /\ a_owes t c /\ a_done t = None.
+Proof. exact c12a_stray_owed. Qed.
+Print Assumptions C12_stray_is_owed.
+
+(* when every request is answered the invariant holds again: consumers exist exactly while they hold allocations
+   (RI d and race_free are the hypotheses of C08c_ri_all_schedules_partial, used for "allocations have a consumer record") *)
+Theorem C12_final_state : forall cf reqs s d,
+  ConsIff d -> RI d -> Forall (fun r => req_wf r = true) reqs -> C08c.race_free reqs ->
+  (forall t, In t (fst (a_exec cf reqs s d)) -> a_done t <> None) ->
+  ConsIff (snd (a_exec cf reqs s d)).
+Proof. exact c12a_final_state. Qed.
+Print Assumptions C12_final_state.
+
+Theorem C12_residue_mid_schedule :
+  cz_run [cy_n5a; cy_g5] [0; 0]%nat = ([-1; -1], [5], [(2, 2); (3, 1); (3, 4)], [1]).
+Proof. exact c12a_residue_mid_schedule. Qed.
+(* req_wf is needed: an allocation with an empty "resources" object (refused by the JSON schema) leaves the record it created *)
+Theorem C12_final_state_needs_wf :
+  cz_run [cz_bad] [0; 0; 0; 0; 0; 0]%nat = ([204], [5], [(2, 2); (3, 1); (3, 4)], [1]) /\ req_wf cz_bad = false.
+Proof. exact c12a_needs_wf. Qed.
+Print Assumptions C12_residue_mid_schedule.
+Print Assumptions C12_final_state_needs_wf.
